@@ -17,6 +17,7 @@ RULE = ("generated *_test.ucg files with 0..8 assertions, each true / false / ma
         "distinct (file set, order); non-trivial = >= 2 files with at least one failing file before a passing one, or "
         "a malformed / computed assertion.")
 RULE += (" " + 'Also: a shared non-test helper file with assertions of its own imported by some of the test files (its assertions belong to every importer); run-time build errors between assertions (the assertions evaluated before the error must be logged); the same file given two and three times in one invocation.')
+RULE += (" " + 'Nine more assertion kinds: the assert sits in a module body instantiated by a statement, below one or two function calls, or in the callback of map / filter / reduce.')
 
 AKINDS = ["true", "true", "true", "false", "non-tuple", "missing-ok", "non-bool-ok", "non-string-desc", "computed-true", "computed-false",
           "expr-true", "expr-false",
